@@ -780,6 +780,33 @@ mod shimtest {
         for x in ss.iter().chain(["?a=[", ":@/", "#", "??", "%zz", "a:b@c:d/e?f#g", "//", " "].iter().map(|s| s.to_string()).collect::<Vec<_>>().iter()) {
             if crate::url::URL::parse(&format!("http://localhost/{}", x)).is_err() { h.hit("shims", "shim_url_localhost_slash", "URL::parse", x, "Err"); }
         }
+        // axiom_url_plain_path: "http://localhost" ++ q, q starting with '/' and holding neither '?' nor '#', parses to the path q
+        for x in ss.iter().map(|s| s.as_str()).chain(["", "a/b.html", "a//b", "%2e%2e/x", "a b", "caf\u{e9}.txt", "x;y=1", "a:b@c", "..", "a..html", "index.html/", "a%23b", "\\"]) {
+            if x.contains('?') || x.contains('#') { continue; }
+            let q = format!("/{}", x);
+            match crate::url::URL::parse(&format!("http://localhost{}", q)) { Ok(c) if c.path == q => {}, other => h.hit("shims", "shim_url_plain_path", "URL::parse", &q, &format!("{:?}", other.map(|c| c.path))) }
+        }
+        // ext_of: std::path::Path::extension of a path that does not end in '/'
+        for x in ss.iter().map(|s| s.as_str()).chain(["a.txt", "a.tar.gz", ".hidden", "dir.d/file", "dir.d/.x", "a.", "..", "a..b", "x/..", "/abs/p.html", "noext", "a/b.c/d", ".", "a.b/", "\u{e9}.\u{e9}", "a.b.c.d.e"]) {
+            if x.is_empty() || x.ends_with('/') || x.contains('\0') { continue; }
+            let cs: Vec<char> = x.chars().collect();
+            let start = cs.iter().rposition(|c| *c == '/').map(|k| k + 1).unwrap_or(0);
+            let name: Vec<char> = cs[start..].to_vec();
+            let k = name.iter().rposition(|c| *c == '.');
+            let want: Option<String> = match k { Some(k) if k > 0 && name != vec!['.', '.'] => Some(name[k + 1..].iter().collect()), _ => None };
+            let got = std::path::Path::new(x).extension().and_then(std::ffi::OsStr::to_str).map(|s| s.to_string());
+            if got != want { h.hit("shims", "shim_path_extension", "Path::extension", x, &format!("{:?} expected {:?}", got, want)); }
+        }
+        // file-system assumptions: metadata().len() == content length; a regular file's path does not end in '/'; lstat of an existing path succeeds
+        {
+            let f2 = dir.join("g.bin");
+            std::fs::write(&f2, vec![1u8; 4097]).unwrap();
+            if std::fs::metadata(&f2).map(|m| m.len()).ok() != Some(4097) { h.hit("shims", "shim_metadata_len", "fs::metadata", "g.bin", "len"); }
+            let with_slash = format!("{}/", f2.to_str().unwrap());
+            if std::fs::metadata(&with_slash).map(|m| m.is_file()).unwrap_or(false) { h.hit("shims", "shim_file_path_slash", "fs::metadata", &with_slash, "a path ending in '/' is reported as a regular file"); }
+            if file_ext::FileExt::is_symlink(f2.to_str().unwrap()).ok() != Some(false) { h.hit("shims", "shim_is_symlink", "FileExt::is_symlink", "g.bin", ""); }
+            if file_ext::FileExt::read_file_partially(f2.to_str().unwrap(), 0, 4097).map(|v| v.len()).ok() != Some(4097) { h.hit("shims", "shim_read_whole", "FileExt::read_file_partially", "g.bin 0-4097", ""); }
+        }
         if file_ext::FileExt::get_path_separator() != "/" { h.hit("shims", "shim_separator", "FileExt::get_path_separator", "", ""); }
         let cwd = std::env::current_dir().unwrap();
         if file_ext::FileExt::get_static_filepath("/x").ok() != Some(format!("{}/x", cwd.to_str().unwrap())) { h.hit("shims", "shim_static_filepath", "FileExt::get_static_filepath", "", ""); }
